@@ -108,7 +108,6 @@ func parseJWT(tokenString string) (*JWT, error) {
 // - Issued at time ('iat') is in the past (within tolerance).
 // - Not before time ('nbf'), if present, is in the past (within tolerance).
 // - Subject ('sub') claim exists and is not empty.
-// - JWT ID ('jti'), if present, is checked against a replay cache to prevent token reuse.
 //
 // Parameters:
 //   - issuerURL: The expected issuer URL (e.g., "https://accounts.google.com").
@@ -172,31 +171,10 @@ func (j *JWT) Verify(issuerURL, clientID string) error {
 		}
 	}
 
-	// Implement replay protection by checking the jti (JWT ID)
-	if jti, ok := claims["jti"].(string); ok {
-		// Skip replay detection for tokens that are being verified from the cache
-		if j.Token == "" {
-			// This is a parsed JWT without the original token string,
-			// which means it's likely from a cached token verification
-			return nil
-		}
-
-		replayCacheMu.Lock()
-		cleanupReplayCache()
-		if _, exists := replayCache[jti]; exists {
-			replayCacheMu.Unlock()
-			return fmt.Errorf("token replay detected")
-		}
-		expFloat, ok := claims["exp"].(float64)
-		var expTime time.Time
-		if ok {
-			expTime = time.Unix(int64(expFloat), 0)
-		} else {
-			expTime = time.Now().Add(10 * time.Minute)
-		}
-		replayCache[jti] = expTime
-		replayCacheMu.Unlock()
-	}
+	// Replay of a token's jti is detected where a token is first presented
+	// (VerifyToken keeps a jti blacklist). Verify is also used to re-check the
+	// ID token stored in an established session on every request, so it must
+	// accept the same token more than once.
 
 	sub, ok := claims["sub"].(string)
 	if !ok || sub == "" {
